@@ -77,7 +77,11 @@ fn canon(raw: &[u8], sess: &Session) -> String {
 
 /// wire size of the request's nonce field part (padded) for the first authenticator
 fn request_nonce_padded(b: &Built) -> Option<usize> {
+    let req_ver = (b.bytes[0] >> 3) & 7;
     let sp = b.spans.iter().find(|s| s.ty == T_AUTH)?;
+    if req_ver == 4 && b.bytes.len() - sp.off <= 24 {
+        return None;
+    }
     let o = sp.off;
     if o + 6 > b.bytes.len() {
         return None;
@@ -89,11 +93,29 @@ fn request_nonce_padded(b: &Built) -> Option<usize> {
 /// Why is `big` longer than the request? Returns the class.
 fn classify(b: &Built, big: &Answer) -> &'static str {
     let excess = big.raw.len() as i64 - b.bytes.len() as i64;
-    // growth of echoed unique identifiers: answer wire size minus the wire size of the
-    // request field with the same body (matched in order)
+    // Known causes are attributed *structurally*: only extension fields that the request really
+    // contains by RFC 7822 framing count. In NTPv4 parsing of extension fields stops as soon as at
+    // most 24 bytes remain (those are a legacy MAC, whatever they look like), so a recorded field
+    // that starts within the last 24 bytes of the datagram is not a field, nor is anything after it.
+    let req_ver = (b.bytes[0] >> 3) & 7;
+    let mut genuine: Vec<&super::c16::Span> = vec![];
+    for sp in b.spans.iter() {
+        if req_ver == 4 && b.bytes.len() - sp.off <= 24 {
+            break;
+        }
+        if sp.off + sp.wire > b.bytes.len() {
+            break;
+        }
+        genuine.push(sp);
+    }
+    // growth of echoed unique identifiers: answer wire size minus the wire size of the genuine
+    // request identifier field with the same body (matched in order)
     let mut req_uids: Vec<(Vec<u8>, usize)> = vec![];
-    for sp in b.spans.iter().filter(|s| s.ty == T_UID) {
+    for sp in genuine.iter().filter(|s| s.ty == T_UID) {
         let declared = u16::from_be_bytes([b.bytes[sp.off + 2], b.bytes[sp.off + 3]]) as usize;
+        if declared < 4 || sp.off + declared > b.bytes.len() {
+            continue;
+        }
         req_uids.push((b.bytes[sp.off + 4..sp.off + declared].to_vec(), sp.wire));
     }
     let mut growth_uid = 0i64;
